@@ -405,6 +405,90 @@ pub fn eval_case(w: &mut Worker, c: &Case) -> Result<Outcome, String> {
             }
         }
     }
+    // Incremental per-file builds (watch mode): the generator object of every file is produced by `get_tmpl_gen_object`
+    // right after that file was added — before the files added later exist — and the objects are put into one group
+    // list `G` next to the runtime string and the exported scripts of the finished group. The statement is about the set
+    // of files in the group list at run time, so the assembled bundle must link exactly like the whole-group bundle.
+    if g.files.len() >= 2 {
+        for (oi, ord) in orders.iter().take(3).enumerate() {
+            let scripts_first = oi % 2 == 1;
+            let assembled = std::panic::catch_unwind(std::panic::AssertUnwindSafe(|| -> Result<String, String> {
+                let mut group = glass_easel_template_compiler::TmplGroup::new();
+                if scripts_first {
+                    for (p, js) in &scripts {
+                        group.add_script(p, js);
+                    }
+                }
+                let mut objs: Vec<(String, String)> = vec![];
+                for i in ord {
+                    let (p, s) = &sources[*i];
+                    group.add_tmpl(p, s);
+                    objs.push((p.clone(), group.get_tmpl_gen_object(p).map_err(|e| e.message)?));
+                }
+                if !scripts_first {
+                    for (p, js) in &scripts {
+                        group.add_script(p, js);
+                    }
+                }
+                let mut b = String::from("(function(){var G={};var R={};");
+                b.push_str(&group.get_runtime_string());
+                b.push_str(";\n");
+                b.push_str(&group.export_all_scripts().map_err(|e| e.message)?);
+                b.push_str(";\n");
+                for (p, o) in &objs {
+                    b.push_str(&format!("G[{}]={};\n", crate::util::js_str(p), o));
+                }
+                b.push_str("return G})()");
+                Ok(b)
+            }));
+            let bundle = match assembled {
+                Ok(Ok(b)) => b,
+                Ok(Err(e)) => {
+                    out.failures.push(Failure { sig: "C13|incremental-codegen-error".into(), tag: None, what: format!("per-file code generation failed: {}", e), detail: json!({}) });
+                    return Ok(out);
+                }
+                Err(p) => {
+                    out.failures.push(Failure { sig: "C13|incremental-codegen-panic".into(), tag: None, what: format!("per-file code generator panicked: {}", crate::compile::panic_message(p)), detail: json!({}) });
+                    return Ok(out);
+                }
+            };
+            out.labels.push("incremental:per-file-objects".into());
+            for t in &g.files {
+                let resp = w.request(&json!({"kind":"render_ref","bundle":bundle,"entry":t.path,"model":model,"data":["{}"],"paths":false})).map_err(|e| e.0)?;
+                if let Some(e) = resp.get("error") {
+                    out.failures.push(Failure {
+                        sig: format!("C13|incremental-bundle-error|{}", short_hash(e.as_str().unwrap_or("").lines().next().unwrap_or(""))),
+                        tag: None,
+                        what: format!("bundle assembled from per-file objects (generated as each file was added, order {:?}) does not load: {}", ord.iter().map(|i| sources[*i].0.clone()).collect::<Vec<_>>(), crate::util::truncate(e.as_str().unwrap_or(""), 300)),
+                        detail: json!({"order": ord}),
+                    });
+                    return Ok(out);
+                }
+                for r in resp["results"].as_array().cloned().unwrap_or_default() {
+                    out.units += r["nodes"].as_u64().unwrap_or(0);
+                    for m in r["mismatches"].as_array().cloned().unwrap_or_default().iter().take(2) {
+                        let mm = Mismatch::from_json(m);
+                        out.failures.push(Failure {
+                            sig: format!("C13|incremental-link|{}", mm.ch),
+                            tag: None,
+                            what: format!(
+                                "per-file objects generated as each file was added (order {:?}, scripts {}), entry {:?}: {} ; sources {:?}",
+                                ord.iter().map(|i| sources[*i].0.clone()).collect::<Vec<_>>(),
+                                if scripts_first { "first" } else { "last" },
+                                t.path,
+                                mm.describe(),
+                                crate::util::truncate(&src_all, 700)
+                            ),
+                            detail: json!({"order": ord}),
+                        });
+                    }
+                }
+                if !out.failures.is_empty() {
+                    return Ok(out);
+                }
+            }
+        }
+    }
     if refs >= 2 && g.files.len() >= 2 {
         out.nt.push(fnv64(src_all.as_bytes()));
     }
